@@ -111,6 +111,10 @@ func runNode3(c *fw.Ctx, idx int, n univ.SNode) {
 	encCap := int64(0)
 	if c.Tier != "thorough" {
 		encCap = 64
+	} else if n.Depth >= 3 {
+		encCap = 256 // nests multiply block splittings (a 12-item array alone has 2*3^11 encodings); depth <= 1 stays uncapped
+	} else if n.Depth == 2 {
+		encCap = 20000
 	}
 	k := 0
 	structFor := func(ft reflect.Type) reflect.Type {
@@ -130,7 +134,7 @@ func runNode3(c *fw.Ctx, idx int, n univ.SNode) {
 			encsOf[di] = append(encsOf[di], encd{out, fmt.Sprint(ch.Taken)})
 		}, nil)
 		if st.Capped {
-			c.Count("encoding_enumerations_capped_at_64", 1)
+			c.Count(fmt.Sprintf("encoding_enumerations_capped_at_%d", encCap), 1)
 		}
 		c.Count("encodings_enumerated", st.Executions)
 	}
@@ -139,6 +143,10 @@ func runNode3(c *fw.Ctx, idx int, n univ.SNode) {
 	for di, d := range ds {
 		rec := ref.DRecord(d, ref.DLong(sentinel))
 		for _, e := range encsOf[di] {
+			if c.Expired() {
+				c.NotExhaustive("budget ran out inside " + n.Chain)
+				return
+			}
 			k++
 			fl := fileCase{schema: rs, datums: []ref.Datum{rec}, encoded: [][]byte{e.b}, comp: []int{1}, codec: "null", mode: k % filedrv.NumModes, encDesc: e.vec}
 			readAndCompare(c, fl, fl.bytes(), lacking, false, n.Chain+"|field-absent-from-target", true)
